@@ -50,4 +50,13 @@ def plan(pid, tier, seed):
     if pid == "C16":
         return {"jobs": world_jobs(["reserve"], tier, seed, 200, 40000, also_release=True), "release": True,
                 "trusted_base": WORLD_TRUST}
+    if pid == "C19":
+        n = 3000 if q else 2_000_000
+        jobs = [{"engine": "bits", "name": f"bits-{i}", "args": ["--seed", seed * 31 + i, "--count", n // (1 if q else NSHARD_THOROUGH)]}
+                for i in range(1 if q else NSHARD_THOROUGH)]
+        return {"jobs": jobs, "nontrivial_min_lines": 2,
+                "rule": "requests: 9x9 boundary grid of both halves (frombits/serde), all 81x81 ordered pairs (cmp), plus seeded "
+                        "random patterns; one 'history' = 64 requests; distinct = distinct request chunks",
+                "trusted_base": ["translator tools/extract_facts.py (Rust expression subset -> BitVec terms)",
+                                 "derive(Hash, Eq, Ord) expansion and serde_json/bincode are exercised, not modelled"]}
     raise SystemExit(f"no plan for property {pid}")
